@@ -676,6 +676,9 @@ fn to_value_form(n: &Node) -> Node {
         Node::Table(t) if t.kind == TblKind::Inline => n.clone(),
         Node::Table(t) => {
             let mut out = Tbl::new(TblKind::Inline);
+            // (an order left open earlier - e.g. by sort_values - stays open in the inline form)
+            out.order_ambiguous = t.order_ambiguous;
+            out.floating = t.floating.clone();
             for (k, v) in &t.entries {
                 out.entries.push((k.clone(), if is_ph(v) { v.clone() } else { to_value_form(v) }));
             }
@@ -828,7 +831,54 @@ fn partition(t: &Tbl) -> Tbl {
 }
 
 fn check_state(s: &State, start_text: &str) -> Result<(), Failure> {
-    let out = s.doc.to_string();
+    check_state_doc(s, &s.doc, start_text)
+}
+
+/// tables in the order `Display` visits them (dotted-key tables are passed through)
+fn visit_tables<'a>(t: &'a mut Table, f: &mut dyn FnMut(&mut Table)) {
+    if !t.is_dotted() {
+        f(t);
+    }
+    for (_, it) in t.iter_mut() {
+        match it {
+            Item::Table(c) => visit_tables(c, f),
+            Item::ArrayOfTables(a) => {
+                for c in a.iter_mut() {
+                    visit_tables(c, f);
+                }
+            }
+            _ => {}
+        }
+    }
+}
+
+/// Known finding F18 by its root cause: `Display` orders tables by document position and gives a
+/// table without one (anything created or converted through the API) the position of the table
+/// visited before it; when positions are not monotone in visiting order (reordered source,
+/// sections under dotted-key tables, `sort_values`), such a table is displaced - content moves to
+/// another parent, sibling order changes, or the text is not valid at all. The signature is
+/// constructive: the document has a position-less table and non-monotone positions, and the same
+/// document with positions renumbered in visiting order passes every oracle of this check.
+fn f18_explains(s: &State, start_text: &str) -> bool {
+    let mut d = s.doc.clone();
+    let mut positions: Vec<Option<usize>> = vec![];
+    visit_tables(d.as_table_mut(), &mut |t| positions.push(t.position()));
+    let has_positionless = positions.iter().any(|p| p.is_none());
+    let some: Vec<usize> = positions.iter().flatten().copied().collect();
+    let monotone = some.windows(2).all(|w| w[0] <= w[1]);
+    if !has_positionless || monotone {
+        return false;
+    }
+    let mut n = 0usize;
+    visit_tables(d.as_table_mut(), &mut |t| {
+        t.set_position(n);
+        n += 1;
+    });
+    check_state_doc(s, &d, start_text).is_ok()
+}
+
+fn check_state_doc(s: &State, doc: &DocumentMut, start_text: &str) -> Result<(), Failure> {
+    let out = doc.to_string();
     let case = || json!({"start": start_text, "ops": s.log, "printed": out});
     let ctx = || format!("--- start\n{start_text}\n--- edits\n{:#?}\n--- printed\n{out}\n---", s.log);
     let re = out.parse::<DocumentMut>().map_err(|e| Failure::new("valid", format!("printed document does not parse after the edits: {e}\n{}", ctx()), case()))?;
@@ -875,7 +925,7 @@ fn check_state(s: &State, start_text: &str) -> Result<(), Failure> {
             mark_all_ambiguous(t);
         }
     }
-    model::diff_tbl(&model::from_doc(&s.doc), &structure, Cmp { hide_empty: true, ..Cmp::EXACT })
+    model::diff_tbl(&model::from_doc(doc), &structure, Cmp { hide_empty: true, ..Cmp::EXACT })
         .map_err(|e| Failure::new("structure", format!("the edited structure does not read back as the edited model: {e}\n{}", ctx()), case()))?;
     // untouched entries verbatim
     let out_nocr = out.replace('\r', "");
@@ -962,7 +1012,7 @@ fn mark_ambiguous(got: &mut Tbl, want: &Tbl) {
 
 pub const F21_WHAT: &str = "Item::into_table / into_array_of_tables on a `key = { .. }` / `key = [{..}]` entry parsed from a document: the key keeps its line decoration (blank or comment lines before the entry), which is then printed inside the header brackets - `[\nkey ]` - so the printed document is not valid TOML";
 static KNOWN_F21: std::sync::atomic::AtomicBool = std::sync::atomic::AtomicBool::new(false);
-pub const F18_WHAT: &str = "ArrayOfTables::push when the sections of an earlier element are not in visiting order (interleaved nested arrays of tables, or a section under a dotted-key table): the new `[[header]]` is printed before some of that element's sections, which then belong to the new element (content moves between elements)";
+pub const F18_WHAT: &str = "Display gives a table without a document position (ArrayOfTables::push, a new sub-table, into_table / into_array_of_tables) the position of the table visited before it; when positions are not monotone in visiting order (reordered source, sections under a dotted-key table, sort_values) the table is displaced: sections move to another array element or parent, sibling order changes, or the text is not valid TOML";
 static KNOWN_F18: std::sync::atomic::AtomicBool = std::sync::atomic::AtomicBool::new(false);
 
 /// does some dotted table of the model have a section (header table / array of tables) child?
@@ -994,6 +1044,11 @@ fn prop_with(t: &mut Tape, st: &mut Stats, probe: bool) -> Result<(), Failure> {
     cfg.f11_safe = true;
     cfg.decor = t.weighted(&[1, 5, 3]) as u8;
     cfg.budget = 8 + t.below(30);
+    if t.chance(1, 12) && std::env::var("NO_WIDE").is_err() {
+        // wide documents (dozens of tables)
+        cfg.many_sections = true;
+        cfg.budget = 250 + t.below(250);
+    }
     cfg.mark_every_line = true;
     // U2.c: where a table declared after one of its sub-tables sorts among later siblings is not
     // decided; such layouts are excluded here by construction
@@ -1035,8 +1090,9 @@ fn prop_with(t: &mut Tape, st: &mut Stats, probe: bool) -> Result<(), Failure> {
             }
             if let Err(f) = check_state(&s, &r.text) {
                 let _ = before;
-                if probe && classes.contains(&"aot.push") && f.sub == "content" && KNOWN_F18.load(std::sync::atomic::Ordering::Relaxed) {
+                if matches!(f.sub.as_str(), "content" | "valid") && KNOWN_F18.load(std::sync::atomic::Ordering::Relaxed) && f18_explains(&s, &r.text) {
                     st.known("F18", F18_WHAT);
+                    st.class(if probe { "known.F18.probe" } else { "known.F18.main" });
                     return Ok(());
                 }
                 return Err(f);
